@@ -90,7 +90,19 @@ def descBody (indent : Text) (lines : List Text) : Text :=
     let lead := first.length > (lstrip first).length
     joinSep [10] (descLines indent lead 0 lines) ++ [10] ++ indent
 
-/-- `print_description(definition, depth, first_in_block)` -/
+/-- a line of white space only (`not line.strip(" \t")`) -/
+def isBlankLine (l : Text) : Bool := l.all (fun c => c == 32 || c == 9)
+/-- the line starts with a space or a tab -/
+def startsWs (l : Text) : Bool := match l with | c :: _ => c == 32 || c == 9 | [] => false
+
+/-- no block string denotes the description (fix D1): the first line starts with white space, so it stays on the line of the
+    opening quotes, and every other non-blank line is indented too, so their common indentation would be removed -/
+def needsQuoted (lines : List Text) : Bool :=
+  let rest := (lines.drop 1).filter (fun l => !isBlankLine l)
+  startsWs (lines.headD []) && !rest.isEmpty && rest.all startsWs
+
+/-- `print_description(definition, depth, first_in_block)`; a description with a carriage return (fix D3) or of the shape
+    `needsQuoted` (fix D1) is printed as a quoted string, every other one as a block string -/
 def printDescription (o : OptsT) (desc : Option String) (depth : Nat := 0) (firstInBlock : Bool := true) : Text :=
   match desc with
   | none => []
@@ -98,6 +110,9 @@ def printDescription (o : OptsT) (desc : Option String) (depth : Nat := 0) (firs
     if !o.descriptions || d.isEmpty then [] else
     let indent := repeatText o.indent depth
     let lines := wrappedLines (splitLF (T d)) (120 - indent.length)
+    if (T d).contains 13 || needsQuoted lines then
+      (if !indent.isEmpty && !firstInBlock then [10] else []) ++ indent ++ jsonDumps (T d) ++ [10]
+    else
     (if !indent.isEmpty && !firstInBlock then [10] else []) ++ indent ++ [34, 34, 34] ++ descBody indent lines ++ [34, 34, 34, 10]
 
 /-! ### literals: `print_ast(ast_node_from_value(...))` -/
